@@ -33,12 +33,23 @@ LEVEL_TEXT = ("Theorems (Props/C15.v) about the hand model of _volume_average_we
               "the same region); equal grids give identity weights; in 3-D every new value is a convex "
               "combination (range preserved), volume*value is conserved (linear and log10 mode), the map is "
               "linear with an explicit matrix whose transpose satisfies the adjoint identity, and in log "
-              "mode resistivity/conductivity give reciprocal results.")
+              "mode resistivity/conductivity give reciprocal results. Option resolution in front of the "
+              "averaging (Model/I2GOpts.v: state = the tables of defaults of Model/Field.interpolate_to_grid; "
+              "a call is a step state -> call -> state * route): for EVERY history of calls with arbitrary "
+              "options (Model / Field / Simulation.get_model / maps.interpolate, raising calls included) the "
+              "defaults are unchanged, every call is routed as if it were the first of the process, and a "
+              "later call without options returns the volume-average map of its own model (so range / "
+              "conservation / log-conservation hold for it after any history).")
 LEVEL_NOTE = ("Hand model tied to the code by correspondence only (weights and indices compared exactly on "
               "dyadic grids, compiled and .py_func). Exact field arithmetic: rounding not modelled; "
               "discretize.utils.volume_average is third party: its matrix is compared with the model's "
               "explicit transpose through _interp_volume_average_adj (1e-9). np.unique is modelled as "
-              "sort + dedupe.")
+              "sort + dedupe. The option-resolution model is a hand model: that the code has no memory "
+              "between calls is established by the option-history correspondence stream (sequences of calls "
+              "with every documented option class on one process, each answer compared with the model on the "
+              "current state), not by the theorems alone; scipy's RegularGridInterpolator and "
+              "interp_spline_3d (other methods) are third party: reference = the same routine called with "
+              "the explicit options the model resolves.")
 TECHNIQUE = ("Coq proof (induction over node lists, lra/field) over a hand model + differential "
              "correspondence (vm_compute on Q)")
 DESIGN_REF = "DESIGN.md section 6 C15"
@@ -46,7 +57,9 @@ GEN = []
 PROPS = 'Props/C15.v'
 TRUSTED = ["Model/VolAvg.v: hand model of _volume_average_weights / interp_volume_average "
            "(tied by exact correspondence of weights and indices)",
-           "discretize.utils.volume_average (third party): validated against the model's transpose"]
+           "discretize.utils.volume_average (third party): validated against the model's transpose",
+           "Model/I2GOpts.v: hand model of the option resolution of Model/Field.interpolate_to_grid, "
+           "Simulation.get_model and maps.interpolate (tied by the option-history correspondence)"]
 ASSUMES = ["node vectors are strictly increasing with at least two nodes (TensorMesh guarantees it)",
            "exact arithmetic: rounding of the merged-node differences and of the centre test is not modelled"]
 
@@ -229,7 +242,7 @@ def check_weights(ctx, n, dis, hist, samples):
         if off:
             hist['1d:large origin'] = hist.get('1d:large origin', 0) + 1
         cases.append((kind, a, b))
-    chunks = [cases[i:i + 250] for i in range(0, len(cases), 250)]
+    chunks = [cases[i:i + 125] for i in range(0, len(cases), 125)]
     texts = []
     for ci, ch in enumerate(chunks):
         lines = [HEADER]
@@ -311,9 +324,9 @@ def case_3d(rng, idx, nmax):
                 init=init)
 
 
-def coq_3d(c):
+def coq_3d(c, header=True, only=None):
     n, m = c['nodes'], c['nnodes']
-    L = [HEADER]
+    L = [HEADER] if header else []
     for nm, x in zip(('nx', 'ny', 'nz'), n):
         L.append(f"Definition {nm} : list Q := {ql(x)}.")
     for nm, x in zip(('mx', 'my', 'mz'), m):
@@ -324,12 +337,49 @@ def coq_3d(c):
     L.append(f"Definition u := arr3n {q3(c['u'])}.")
     L.append(f"Definition ini := arr3n {q3(c['init'])}.")
     L.append("Definition vol := vol3 mx my mz.")
-    L.append("Eval vm_compute in map (fun o => out_q (apply_va idx3_eqb T vol (fun _ => 0%Q) v o)) (cells3 mx my mz).")
-    L.append("Eval vm_compute in map (fun o => out_q (apply_va idx3_eqb T vol ini v o)) (cells3 mx my mz).")
-    L.append("Eval vm_compute in map (fun i => out_q (apply_va_T idx3_eqb T vol u i)) (cells3 nx ny nz).")
-    L.append("Eval vm_compute in map o33 T.")
-    L.append("Eval vm_compute in out_q (interp_va Qle_bool nx ny nz mx my mz vol ini v (0, 0, 0)%nat).")
+    evals = [
+        "Eval vm_compute in map (fun o => out_q (apply_va idx3_eqb T vol (fun _ => 0%Q) v o)) (cells3 mx my mz).",
+        "Eval vm_compute in map (fun o => out_q (apply_va idx3_eqb T vol ini v o)) (cells3 mx my mz).",
+        "Eval vm_compute in map (fun i => out_q (apply_va_T idx3_eqb T vol u i)) (cells3 nx ny nz).",
+        "Eval vm_compute in map o33 T.",
+        "Eval vm_compute in out_q (interp_va Qle_bool nx ny nz mx my mz vol ini v (0, 0, 0)%nat)."]
+    for k, e in enumerate(evals):
+        # `only`: the answers this case is going to be compared with (the others are placeholders
+        # so that every case has NANS_3D answers)
+        L.append(e if only is None or k in only else "Eval vm_compute in 0%Z.")
     return '\n'.join(L) + '\n'
+
+
+NANS_3D = 5          # answers (Eval) per 3-D case
+
+
+def coq_3d_batches(prefix, cases, per_file):
+    """Several 3-D cases per generated file (each inside its own Module): loading the libraries costs
+    about 2 s of CPU per coqc process, more than evaluating a case.  Returns the (name, text) list
+    and, per case, (file name, index of its first answer)."""
+    texts, where = [], []
+    for f0 in range(0, len(cases), per_file):
+        name = f"{prefix}_{f0 // per_file}"
+        L = [HEADER]
+        for k, c in enumerate(cases[f0:f0 + per_file]):
+            L.append(f"Module K{k}.")
+            L.append(coq_3d(c, header=False, only=c.get('only')))
+            L.append(f"End K{k}.")
+            where.append((name, k * NANS_3D))
+        texts.append((name, '\n'.join(L) + '\n'))
+    return texts, where
+
+
+def batch_answers(res, where, i):
+    """Answers of case i of a batched run, or (None, log) when its file did not evaluate."""
+    name, k0 = where[i]
+    rc, out = res[name]
+    if rc != 0:
+        return None, out
+    ans = V.eval_answers(out)
+    if len(ans) < k0 + NANS_3D:
+        return None, out
+    return ans[k0:k0 + NANS_3D], out
 
 
 def model_apply_py(T, vol, v, shape_out):
@@ -363,19 +413,19 @@ def check_3d(ctx, n, nmax, dis, hist, samples):
     from emg3d import maps
     rng = ctx.rng
     cases = [case_3d(rng, i, nmax) for i in range(n)]
-    res = V.coq_eval_many([(f"c15_v_{i}", coq_3d(c)) for i, c in enumerate(cases)])
+    texts, where = coq_3d_batches('c15_v', cases, 4 if ctx.thorough else 3)
+    res = V.coq_eval_many(texts)
     nev = 0
     for i, c in enumerate(cases):
-        rc, out = res[f"c15_v_{i}"]
+        ans, out = batch_answers(res, where, i)
         brief = {'kinds': c['kinds'], 'family': c['family'], 'nodes': [[float(x) for x in a] for a in c['nodes']],
                  'new_nodes': [[float(x) for x in a] for a in c['nnodes']],
                  'values': [float.hex(float(x)) for x in c['v'].ravel()[:8]]}
         if i < 2:
             samples.append(brief)
-        if rc != 0:
+        if ans is None:
             dis.append({'what': 'interp_va model does not evaluate', 'log': out[-1500:]})
             continue
-        ans = V.eval_answers(out)
         m_out = np.array([float(x) for x in V.parse_pairs(ans[0])])
         m_out_init = np.array([float(x) for x in V.parse_pairs(ans[1])])
         m_adj = np.array([float(x) for x in V.parse_pairs(ans[2])])
@@ -560,24 +610,26 @@ def check_call_histories(ctx, nhist, ncalls, dis, hist, samples):
     evaluated on the grids of that call (history independence)."""
     rng = ctx.rng
     hs = [gen_call_history(rng, ncalls) for _ in range(nhist)]
-    texts = []
+    ccs = []
     for hi, (pool, calls) in enumerate(hs):
         for k, c in enumerate(calls):
-            cc = dict(nodes=pool[c['src']], nnodes=pool[c['tgt']], v=c['v'], u=c['u'],
-                      init=np.zeros(c['u'].shape))
-            texts.append((f"c15_h_{hi}_{k}", coq_3d(cc)))
+            ccs.append(dict(nodes=pool[c['src']], nnodes=pool[c['tgt']], v=c['v'], u=c['u'],
+                            init=np.zeros(c['u'].shape),
+                            only={'fwd': (0,), 'adj': (2,)}.get(c['op'], (3,))))
+    texts, where = coq_3d_batches('c15_h', ccs, 6 if ctx.thorough else 5)
     res = V.coq_eval_many(texts)
     nev = 0
+    flat = -1
     for hi, (pool, calls) in enumerate(hs):
         objs = {nm: mesh_of(nd) for nm, nd in pool.items()}        # ONE object per grid, re-used
         done = []
         for k, c in enumerate(calls):
-            rc, out = res[f"c15_h_{hi}_{k}"]
+            flat = hi * len(calls) + k
+            ans, out = batch_answers(res, where, flat)
             done.append((c['op'], c['src'], c['tgt']))
-            if rc != 0:
+            if ans is None:
                 dis.append({'what': 'interp_va model does not evaluate (history)', 'log': out[-1200:]})
                 continue
-            ans = V.eval_answers(out)
             g, ng = objs[c['src']], objs[c['tgt']]
             shape_o = tuple(ng.shape_cells)
             vol = ng.cell_volumes.reshape(shape_o, order='F')
@@ -614,15 +666,346 @@ def check_call_histories(ctx, nhist, ncalls, dis, hist, samples):
     return nev
 
 
+# ------------- option histories (round 6): does a call's option set leak into later calls?
+# Model of the option resolution: coq/Model/I2GOpts.v (state = the tables of defaults).
+OPT_CLASSES = [
+    ('linear', {'method': 'linear'}),
+    ('nearest', {'method': 'nearest'}),
+    ('cubic', {'method': 'cubic'}),
+    ('volume', {'method': 'volume'}),
+    ('linear,extrapolate=False', {'method': 'linear', 'extrapolate': False}),
+    ('nearest,extrapolate=False', {'method': 'nearest', 'extrapolate': False}),
+    ('cubic,extrapolate=True', {'method': 'cubic', 'extrapolate': True}),
+    ('extrapolate=False', {'extrapolate': False}),
+    ('log=False', {'log': False}),
+    ('log=True', {'log': True}),
+    ('linear,log=True', {'method': 'linear', 'log': True}),
+    ('volume,log=False,extrapolate=False', {'method': 'volume', 'log': False, 'extrapolate': False}),
+    ('linear,fill_value', {'method': 'linear', 'fill_value': 3, 'bounds_error': False}),
+    ('nearest,bounds_error', {'method': 'nearest', 'bounds_error': True}),
+    ('cubic,mode,cval', {'method': 'cubic', 'mode': 'constant', 'cval': 2}),
+    ('cubic,order', {'method': 'cubic', 'order': 1}),
+    ('unknown method', {'method': 'bogus'}),
+    ('method=None', {'method': None}),
+    ('linear,unknown keyword', {'method': 'linear', 'foo': 1}),
+    ('volume,unknown keyword', {'method': 'volume', 'foo': 1}),
+    ('xi given', {'method': 'nearest', 'xi': 'GRID:T1'}),
+    ('values given', {'values': None}),
+]
+OPT_ENTRIES = ['model:Resistivity', 'model:LgConductivity', 'field', 'direct']
+DEFAULT_ENTRIES = ['model', 'get_model', 'model', 'field', 'model', 'direct']
+GRID_IDS = {'G': 0, 'T0': 1, 'T1': 2}
+
+
+def gen_opt_pool(rng):
+    """G: 4..5 cells per direction (so that the spline routine accepts it); T0: another partition
+    of the SAME region; T1: an unrelated overlapping grid (cells outside G)."""
+    g = [rand_nodes(rng, rng.randint(4, 5)) for _ in range(3)]
+    t0 = [pair_1d_from(rng, a, 'same_region', 4) for a in g]
+    t1 = [pair_1d_from(rng, a, rng.choice(['overlap', 'outside', 'shift']), 3) for a in g]
+    if all(a == b for a, b in zip(g, t0)):
+        t0[0] = [g[0][0], g[0][-1]]
+    return {'G': g, 'T0': t0, 'T1': t1}
+
+
+def pair_1d_from(rng, a, kind, nmax):
+    """Second grid of the given relation to the GIVEN node list a."""
+    if kind == 'same_region':
+        L = int(round((a[-1] - a[0]) * 16))
+        cuts = sorted(set(rng.randint(1, max(L - 1, 1)) for _ in range(rng.randint(1, nmax - 1))))
+        b = [a[0]] + [a[0] + c / 16 for c in cuts if 0 < c < L] + [a[-1]]
+    elif kind == 'shift':
+        d = rng.choice([-1, 1]) * rng.randint(1, 12) / 16
+        b = [x + d for x in a]
+    elif kind == 'outside':
+        b = rand_nodes(rng, rng.randint(2, nmax), a[0] - rng.randint(1, 40) / 8)
+        while b[-1] <= a[-1]:
+            b.append(b[-1] + rng.randint(8, 40) / 8)
+    else:
+        b = rand_nodes(rng, rng.randint(2, nmax), a[0] + rng.randint(-24, 24) / 8, den=rng.choice([4, 8, 16]))
+    return sorted(set(b))
+
+
+def gen_opt_history(rng, hi, nclasses, shuffle):
+    """Calls with options (classes x entry points enumerated deterministically, rotated by hi), each
+    followed by a call WITHOUT options; the first call of a history is a default call."""
+    pool = gen_opt_pool(rng)
+    shp = tuple(len(x) - 1 for x in pool['G'])
+    combos = [(ci, ei) for ci in range(len(OPT_CLASSES)) for ei in range(len(OPT_ENTRIES))]
+    if shuffle:
+        rng.shuffle(combos)
+    else:
+        combos = combos[hi::max(1, (len(combos) + nclasses - 1) // nclasses)] if nclasses < len(combos) else combos
+    calls = [dict(entry='model', map='Resistivity', tgt='T0', user={}, label='default', default=True)]
+    for k, (ci, ei) in enumerate(combos):
+        label, user = OPT_CLASSES[ci]
+        ent = OPT_ENTRIES[ei]
+        if ent == 'direct' and 'xi' in user:
+            continue                        # a Python-level TypeError (xi twice), not an option
+        tgt = 'T0' if (k + hi) % 3 else 'T1'
+        c = dict(entry=ent.split(':')[0], map=ent.split(':')[1] if ':' in ent else 'Conductivity',
+                 tgt=tgt, user=dict(user), label=f'{ent}({label})', default=False)
+        calls.append(c)
+        de = DEFAULT_ENTRIES[(k + hi) % len(DEFAULT_ENTRIES)]
+        calls.append(dict(entry=de, map=NAMES6[(k + 2 * hi) % 6], tgt='T0' if (k + hi) % 2 else 'T1',
+                          user={}, label=f'{de}(default)', default=True))
+    for c in calls:
+        c['v'] = values8(rng, shp)
+    return pool, calls
+
+
+def coq_oval(x):
+    if isinstance(x, str) and x.startswith('GRID:'):
+        return f"(OGrid {GRID_IDS[x[5:]]})"
+    if isinstance(x, bool):
+        return f"(OBool {'true' if x else 'false'})"
+    if x is None:
+        return "ONone"
+    if isinstance(x, int):
+        return f"(ONum ({x}))"
+    return f"(OStr {V.coq_str(x)})"
+
+
+def coq_call(c):
+    ent = {'model': None, 'get_model': None, 'field': 'FieldI2G', 'direct': 'Direct'}[c['entry']]
+    if ent is None:
+        ent = f"(ModelI2G {'false' if c['map'].startswith('L') else 'true'})"
+    user = '; '.join(f"({V.coq_str(k)}, {coq_oval(v)})" for k, v in c['user'].items())
+    return (f"{{| c_entry := {ent}; c_src := 0; c_tgt := {GRID_IDS[c['tgt']]}; "
+            f"c_user := [{user}] |}}")
+
+
+OPT_HEADER = (
+    "From Coq Require Import String DecimalString.\n"
+    "From V Require Import Model.I2GOpts.\n"
+    "Local Open Scope string_scope.\n"
+    "Definition zs (z : Z) : string := NilEmpty.string_of_int (Z.to_int z).\n"
+    "Definition sv (v : oval) : string := match v with OStr s => \"s:\" ++ s | OBool true => \"b:1\" "
+    "| OBool false => \"b:0\" | ONone => \"n:\" | ONum z => \"z:\" ++ zs z | OGrid n => \"g:\" ++ zs (Z.of_nat n) end.\n"
+    "Definition sb (b : bool) : string := if b then \"1\" else \"0\".\n"
+    "Definition sr (r : route) : list (string * string) := match r with\n"
+    "  | RVolume lg => [(\"route\", \"volume\"); (\"log\", sb lg)]\n"
+    "  | ROther m e lg kw => [(\"route\", \"other\"); (\"method\", sv m); (\"extrapolate\", sb e); (\"log\", sb lg)]\n"
+    "                        ++ map (fun kv => (\"kw:\" ++ fst kv, sv (snd kv))) kw\n"
+    "  | RTypeError => [(\"route\", \"typeerror\")] end ++ [(\"end\", \"\")].\n"
+    "Definition show (e : entry) (r : route) : list (string * string) :=\n"
+    "  (\"accepts\", sb (entry_accepts e r)) :: sr r.\n"
+    "Definition shows (st : defaults) (cs : list call) : list (string * string) :=\n"
+    "  let res := run st cs in\n"
+    "  (\"state_kept\", sb (match fst res with {| d_model := m; d_field := f |} =>\n"
+    "       (Nat.eqb (List.length m) 2 && Nat.eqb (List.length f) 3)%bool end))\n"
+    "  :: flat_map (fun cr => show (c_entry (fst cr)) (snd cr)) (combine cs (snd res)).\n")
+
+
+def parse_routes(ans):
+    """Answer of `shows`: flat list of (key, value) string pairs, one block per call closed by 'end'."""
+    pairs = re.findall(r'\("([^"]*)"(?:%string)?\s*,\s*"([^"]*)"(?:%string)?\)', ans)
+    blocks, cur = [], {}
+    for k, v in pairs:
+        if k == 'state_kept':
+            continue
+        if k == 'end':
+            blocks.append(cur)
+            cur = {}
+        else:
+            cur[k] = v
+    return blocks
+
+
+def py_oval(s, objs):
+    t, _, rest = s.partition(':')
+    if t == 's':
+        return rest
+    if t == 'b':
+        return rest == '1'
+    if t == 'n':
+        return None
+    if t == 'z':
+        return int(rest)
+    return objs[{v: k for k, v in GRID_IDS.items()}[int(rest)]]
+
+
+def outcome(fn):
+    """('ok', flat array) or ('err', exception type name)."""
+    with np.errstate(all='ignore'), warnings.catch_warnings():
+        warnings.simplefilter('ignore')
+        try:
+            return 'ok', np.asarray(fn()).ravel()
+        except Exception as e:          # noqa: BLE001 -- fault paths are part of the stream
+            return 'err', type(e).__name__
+
+
+def _survey():
+    import emg3d
+    return emg3d.surveys.Survey(sources=emg3d.TxElectricDipole((0.5, 0.5, 0.5, 0, 0)),
+                                receivers=emg3d.RxElectricPoint((1, 1, 1, 0, 0)), frequencies=1.0)
+
+
+def user_opts(c, objs):
+    return {k: (objs[v[5:]] if isinstance(v, str) and v.startswith('GRID:') else v) for k, v in c['user'].items()}
+
+
+def field_data(c, g):
+    n = g.n_edges
+    base = np.resize(c['v'].ravel(), n)
+    return base * (1 + 0.5j)
+
+
+def run_opt_call(c, objs):
+    """The call on the implementation (shared grid objects)."""
+    import emg3d
+    from emg3d import maps
+    g, ng = objs['G'], objs[c['tgt']]
+    kw = user_opts(c, objs)
+    if c['entry'] in ('model', 'get_model'):
+        mp = getattr(maps, 'Map' + c['map'])()
+
+        def fn():
+            model = emg3d.Model(g, property_x=mp.forward(c['v'].copy()), mapping=c['map'])
+            if c['entry'] == 'get_model':
+                sim = emg3d.Simulation(_survey(), model, gridding='input', gridding_opts=ng, name='c15')
+                return sim.get_model('TxED-1', 'f-1').property_x
+            return model.interpolate_to_grid(ng, **kw).property_x
+    elif c['entry'] == 'field':
+        def fn():
+            return emg3d.Field(g, field_data(c, g), frequency=1.0).interpolate_to_grid(ng, **kw).field
+    else:
+        def fn():
+            return maps.interpolate(g, c['v'].copy(), ng, **kw)
+    return outcome(fn)
+
+
+def expected_opt_call(c, route, pool, objs, Ts):
+    """What the Coq model says: the volume-average map with the model's weights, or the third-party
+    routine called with EXPLICIT (method, extrapolate, log, kwargs) on fresh grid objects."""
+    import emg3d
+    from emg3d import maps
+    if route['route'] == 'typeerror':
+        return 'err', 'TypeError'
+    if route.get('accepts') == '0':
+        return 'err', 'ValueError'
+    lg = route['log'] == '1'
+    g, ng = mesh_of(pool['G']), mesh_of(pool[c['tgt']])
+    is_model = c['entry'] in ('model', 'get_model')
+    mp = getattr(maps, 'Map' + c['map'])()
+    if route['route'] == 'volume':
+        T, vol, shape_o = Ts[c['tgt']]
+        vals = mp.forward(c['v'].copy()) if is_model else c['v']
+        with np.errstate(all='ignore'):
+            res = (10 ** model_apply_py(T, vol, np.log10(vals), shape_o) if lg
+                   else model_apply_py(T, vol, vals, shape_o))
+        if is_model:
+            return outcome(lambda: emg3d.Model(ng, property_x=res, mapping=c['map']).property_x)
+        return 'ok', res.ravel()
+    fresh = {'G': g, 'T0': mesh_of(pool['T0']), 'T1': mesh_of(pool['T1'])}
+    ex = dict(method=py_oval(route['method'], fresh), extrapolate=route['extrapolate'] == '1', log=lg)
+    ex.update({k[3:]: py_oval(v, fresh) for k, v in route.items() if k.startswith('kw:')})
+    if is_model:
+        return outcome(lambda: emg3d.Model(
+            ng, property_x=maps.interpolate(g, mp.forward(c['v'].copy()), ng, **ex), mapping=c['map']).property_x)
+    if c['entry'] == 'field':
+        f = emg3d.Field(g, field_data(c, g), frequency=1.0)
+        return outcome(lambda: emg3d.Field(ng, np.r_[
+            maps.interpolate(g, f.fx, ng, **ex).ravel('F'), maps.interpolate(g, f.fy, ng, **ex).ravel('F'),
+            maps.interpolate(g, f.fz, ng, **ex).ravel('F')], frequency=1.0).field)
+    return outcome(lambda: maps.interpolate(g, c['v'].copy(), ng, **ex))
+
+
+def same_outcome(a, b, tol=1e-9):
+    if a[0] != b[0]:
+        return False
+    if a[0] == 'err':
+        return a[1] == b[1]
+    x, y = a[1], b[1]
+    if x.shape != y.shape:
+        return False
+    if np.iscomplexobj(x) or np.iscomplexobj(y):
+        sc = max(float(np.max(np.abs(y))) if y.size else 0.0, 1e-300)
+        return bool(np.all(np.abs(x - y) <= tol * np.maximum(np.abs(y), sc * 1e-3)))
+    ok = np.isfinite(y)
+    if not np.array_equal(ok, np.isfinite(x)):
+        return False
+    return closev(x[ok], y[ok], tol) is None
+
+
+def brief_outcome(o):
+    return o[1] if o[0] == 'err' else [float(np.real(z)) for z in o[1][:4]]
+
+
+def check_option_histories(ctx, nhist, nclasses, dis, hist, samples):
+    """Histories of calls WITH options on one process (every documented method, extrapolate, log,
+    extra keyword arguments, calls that raise; Model / Field / maps.interpolate), each followed by a
+    call WITHOUT options (Model.interpolate_to_grid, Simulation.get_model, Field, maps.interpolate);
+    every answer is compared with the Coq model run on the current state (Model/I2GOpts.v routes the
+    call; volume routes are evaluated with the weights of Model/VolAvg.v)."""
+    rng = ctx.rng
+    hs = [gen_opt_history(rng, hi, nclasses, shuffle=ctx.thorough and hi > 0) for hi in range(nhist)]
+    L = [HEADER, OPT_HEADER]
+    for hi, (pool, calls) in enumerate(hs):
+        shp = tuple(len(x) - 1 for x in pool['G'])
+        for tg in ('T0', 'T1'):
+            sho = tuple(len(x) - 1 for x in pool[tg])
+            L.append(f"Module H{hi}{tg}.")
+            L.append(coq_3d(dict(nodes=pool['G'], nnodes=pool[tg], v=np.zeros(shp), u=np.zeros(sho),
+                                 init=np.zeros(sho)), header=False, only=(3,)))
+            L.append(f"End H{hi}{tg}.")
+    # ONE state threaded through all histories of the run, as on the process
+    allcalls = [c for _, calls in hs for c in calls]
+    L.append("Eval vm_compute in shows defaults0 [" + ';\n  '.join(coq_call(c) for c in allcalls) + "].")
+    rc, out = V.coq_eval('c15_o_0', '\n'.join(L) + '\n')
+    if rc != 0:
+        dis.append({'what': 'option-resolution model does not evaluate', 'log': out[-1500:]})
+        return 0
+    ans = V.eval_answers(out)
+    routes = parse_routes(ans[-1])
+    if len(routes) != len(allcalls) or '("state_kept", "1")' not in ans[-1].replace('%string', ''):
+        dis.append({'what': 'option-resolution model: unexpected answer', 'log': ans[-1][:800]})
+        return 0
+    nev, ri = 0, 0
+    for hi, (pool, calls) in enumerate(hs):
+        objs = {nm: mesh_of(nd) for nm, nd in pool.items()}
+        Ts = {}
+        for ti, tg in enumerate(('T0', 'T1')):
+            a = ans[(2 * hi + ti) * NANS_3D + 3]
+            sho = tuple(objs[tg].shape_cells)
+            Ts[tg] = (parse_T(a), objs[tg].cell_volumes.reshape(sho, order='F'), sho)
+        done = []
+        for k, c in enumerate(calls):
+            route = routes[ri]
+            ri += 1
+            done.append(c['label'] + '->' + c['tgt'])
+            impl = run_opt_call(c, objs)
+            want = expected_opt_call(c, route, pool, objs, Ts)
+            nev += 1
+            key = ('opt:default ' if c['default'] else 'opt:') + c['entry'] + ':' + route['route'] \
+                + (':raises' if want[0] == 'err' else '')
+            hist[key] = hist.get(key, 0) + 1
+            if not same_outcome(impl, want):
+                dis.append({'what': (f"{c['label']} after a history of calls with other options differs from the "
+                                     f"model on the current state" if c['default'] else
+                                     f"{c['label']} differs from the model of the option resolution"),
+                            'case': {'history': done[-12:], 'calls_before': len(done) - 1, 'map': c['map'],
+                                     'target': c['tgt'], 'user_options': repr(c['user']),
+                                     'route': route,
+                                     'nodes': {nm: [[float(x) for x in a] for a in nd] for nm, nd in pool.items()}},
+                            'impl': brief_outcome(impl), 'model': brief_outcome(want)})
+                if len([d for d in dis if 'option' in d['what']]) >= 4:
+                    return nev
+        if hi < 1:
+            samples.append({'option_history': [c['label'] + '->' + c['tgt'] for c in calls[:9]]})
+    return nev
+
+
 def correspondence(ctx):
     dis, hist, samples = [], {}, []
-    n1, nt = check_weights(ctx, 3000 if ctx.thorough else 500, dis, hist, samples)
-    n3 = check_3d(ctx, 120 if ctx.thorough else 24, 4 if ctx.thorough else 3, dis, hist, samples)
+    n1, nt = check_weights(ctx, 3000 if ctx.thorough else 360, dis, hist, samples)
+    n3 = check_3d(ctx, 120 if ctx.thorough else 18, 4 if ctx.thorough else 3, dis, hist, samples)
     n3 += check_call_histories(ctx, 12 if ctx.thorough else 3, 12 if ctx.thorough else 9, dis, hist, samples)
+    n3 += check_option_histories(ctx, 4 if ctx.thorough else 2, 10 ** 9 if ctx.thorough else 44, dis, hist, samples)
     return {
         'evaluations': n1 + n3,
         'distinct_nontrivial': nt,
-        'rule': "1-D: grid pairs cycling through equal/refine/coarsen/shift/overlap/inside/outside/same_region/"
+        'rule': "1-D (360 pairs quick, 3000 thorough; 3-D 18 / 120 cases, several per generated file): grid pairs cycling through equal/refine/coarsen/shift/overlap/inside/outside/same_region/"
                 "disjoint/touching/eqcount/eqcount_shift (equal cell counts, 10..60 m cells, corresponding "
                 "nodes 1/8..4 m apart), 1..12 cells, dyadic nodes (1/4..1/16), 40% of the pairs translated to "
                 "a large absolute origin (1e5..1e7, exact in floats); 3-D families: local / utm (same families "
@@ -638,7 +1021,15 @@ def correspondence(ctx):
                 "histories: a pool of grid OBJECTS (G0, G0 shifted, same counts/other widths, permuted shape, "
                 "other counts, two targets) re-used as source and target through 9 (thorough 12) calls "
                 "(adjoint, interpolate linear/log, Model.interpolate_to_grid), starting with adjoints of three "
-                "equal-n_cells sources onto the same target object; each answer vs the model on that call's grids",
+                "equal-n_cells sources onto the same target object; each answer vs the model on that call's grids. "
+                "Option histories (one process, one model state threaded through all of them): 22 option "
+                "classes (each documented method, extrapolate, log, extra keyword arguments of the third-party "
+                "routines, unknown method / keyword, 'xi' / 'values' given) x 4 entry points "
+                "(Model Resistivity / LgConductivity, Field, maps.interpolate) enumerated deterministically, "
+                "each followed by a call WITHOUT options (Model.interpolate_to_grid with the six maps, "
+                "Simulation.get_model, Field, maps.interpolate); routes from Model/I2GOpts.v (vm_compute), "
+                "volume routes evaluated with the weights of Model/VolAvg.v, other routes with the routine "
+                "called with the resolved options spelled out; errors compared by type",
         'samples': samples[:6],
         'traces_validated_against_impl': n1 + n3,
         'histogram': hist,
@@ -869,11 +1260,134 @@ def search_i2g_case(seed):
     return None
 
 
+def search_opts_history_case(seed):
+    """Hidden state between calls, on the implementation only: on ONE process, after every call
+    with options (each documented method / extrapolate / log / extra keyword, Model, Field and
+    maps.interpolate, failing calls included) a Model.interpolate_to_grid / Simulation.get_model call
+    WITHOUT options between two grids covering the same region must still conserve the integral of
+    log10, stay within the range of the input, give reciprocal results for resistivity and
+    conductivity, and reproduce the answer of the first call of the history."""
+    import random
+    import emg3d
+    rng = random.Random(seed)
+    pool = gen_opt_pool(rng)
+    objs = {nm: mesh_of(nd) for nm, nd in pool.items()}
+    g, ng = objs['G'], objs['T0']
+    npr = np.random.RandomState(seed % (2 ** 31))
+    rho = 10 ** npr.uniform(-3, 3, g.shape_cells)
+    vol = g.cell_volumes.reshape(g.shape_cells, order='F')
+    nvol = ng.cell_volumes.reshape(ng.shape_cells, order='F')
+    base = {'seed': seed, 'kind': 'opts',
+            'nodes': {nm: [[float.hex(x) for x in a] for a in nd] for nm, nd in pool.items()}}
+    s_in = float(np.sum(vol * np.log10(rho)))
+    s_abs = float(np.sum(vol * np.abs(np.log10(rho))))
+    done = []
+
+    def default_pair(via_sim):
+        out = []
+        for name, vals in (('Resistivity', rho), ('Conductivity', 1.0 / rho)):
+            m = emg3d.Model(g, property_x=vals.copy(), mapping=name)
+            if via_sim:
+                with warnings.catch_warnings():
+                    warnings.simplefilter('ignore')
+                    sim = emg3d.Simulation(_survey(), m, gridding='input', gridding_opts=ng, name='c15')
+                    out.append(np.asarray(sim.get_model('TxED-1', 'f-1').property_x))
+            else:
+                out.append(np.asarray(m.interpolate_to_grid(ng).property_x))
+        return out
+
+    def oracle(res, con, first, who):
+        where = (f"{who} without options, after {len(done)} earlier call(s) with options" if done
+                 else f"{who} without options")
+        s_out = float(np.sum(nvol * np.log10(res))) if np.all(res > 0) else float('nan')
+        if not abs(s_in - s_out) <= 1e-9 * s_abs:
+            return dict(base, signature='interpolate_to_grid without options does not conserve the integral '
+                                        'of the log (depends on earlier calls with options)' if done else
+                                        'interpolate_to_grid without options does not conserve the integral of the log',
+                        where=where, history=list(done), observed=s_out, required=s_in)
+        if res.min() < rho.min() * (1 - 1e-9) or res.max() > rho.max() * (1 + 1e-9):
+            return dict(base, signature='interpolate_to_grid without options leaves the range of the input values',
+                        where=where, history=list(done), observed=[float(res.min()), float(res.max())],
+                        required=[float(rho.min()), float(rho.max())])
+        if np.max(np.abs(res * con - 1.0)) > 1e-9:
+            return dict(base, signature='interpolate_to_grid without options: resistivity and conductivity '
+                                        'models give different results', where=where, history=list(done),
+                        observed=float(np.max(np.abs(res * con - 1.0))), required=0.0)
+        if first is not None and not np.all(np.abs(res - first) <= 1e-12 * np.abs(first)):
+            k = int(np.argmax(np.abs(res - first) / np.abs(first)))
+            return dict(base, signature='interpolate_to_grid without options depends on the options of earlier calls',
+                        where=where, history=list(done), flat_index=k, observed=float(res.ravel()[k]),
+                        required=float(first.ravel()[k]))
+        return None
+
+    try:
+        first, fcon = default_pair(False)
+    except Exception as e:          # noqa: BLE001
+        return dict(base, signature='Model.interpolate_to_grid fails on a valid model', observed=repr(e))
+    h = oracle(first, fcon, None, 'Model.interpolate_to_grid')
+    if h:
+        return h
+    combos = [(ci, ei) for ci in range(len(OPT_CLASSES)) for ei in range(len(OPT_ENTRIES))]
+    rot = rng.randint(0, len(combos) - 1)
+    combos = combos[rot:] + combos[:rot]
+    for k, (ci, ei) in enumerate(combos):
+        label, user = OPT_CLASSES[ci]
+        ent = OPT_ENTRIES[ei]
+        if ent == 'direct' and 'xi' in user:
+            continue
+        c = dict(entry=ent.split(':')[0], map=ent.split(':')[1] if ':' in ent else 'Conductivity',
+                 tgt='T0' if k % 2 else 'T1', user=dict(user), v=rho)
+        status = run_opt_call(c, objs)[0]                 # may raise inside: a fault path
+        done.append(f"{ent}.({', '.join(f'{a}={b!r}' for a, b in user.items())}) -> {c['tgt']}"
+                    + (' [raised]' if status == 'err' else ''))
+        via_sim = k % 3 == 2
+        who = 'Simulation.get_model' if via_sim else 'Model.interpolate_to_grid'
+        try:
+            res, con = default_pair(via_sim)
+        except Exception as e:          # noqa: BLE001
+            return dict(base, signature='interpolate_to_grid without options fails after earlier calls with options',
+                        history=list(done), observed=repr(e))
+        h = oracle(res, con, first, who)
+        if h:
+            return h
+    return None
+
+
+def fresh_process_case(fn_name, seed):
+    """Run one searcher case in a NEW interpreter (same emg3d tree): hidden state left behind by the
+    correspondence streams of this process must not blur the recorded history.  Falls back to the
+    in-process call when the child cannot be run."""
+    import json
+    import os
+    import subprocess
+    import sys
+    pydir = os.path.dirname(os.path.dirname(os.path.abspath(__file__)))
+    code = (f"import sys, json; sys.path.insert(0, {pydir!r}); import props.c15 as m; "
+            f"print('RESULT' + json.dumps(m.{fn_name}({int(seed)}), default=str))")
+    try:
+        p = subprocess.run([sys.executable, '-c', code], stdout=subprocess.PIPE, stderr=subprocess.DEVNULL,
+                           text=True, timeout=900)
+        for line in p.stdout.splitlines():
+            if line.startswith('RESULT'):
+                return json.loads(line[6:])
+    except Exception:          # noqa: BLE001
+        pass
+    return globals()[fn_name](seed)
+
+
 def search(ctx, broken):
     rng = ctx.rng
     n = 300 if ctx.thorough else 80
     hits = []
+    for k in range(3 if ctx.thorough else 1):
+        sd = rng.randint(0, 2 ** 40)
+        h = fresh_process_case('search_opts_history_case', sd) if k == 0 else search_opts_history_case(sd)
+        if h:
+            hits.append(h)
+            break
     for k in range(40 if ctx.thorough else 12):
+        if hits:
+            break
         h = search_history_case(rng.randint(0, 2 ** 40))
         if h:
             hits.append(h)
@@ -891,6 +1405,9 @@ def search(ctx, broken):
         if h:
             hits.append(h)
             break
+    ctx.notes.append("searcher: option histories in a fresh interpreter (every option class x entry point, then "
+                     "a call without options: log-integral, range, rho/sigma reciprocity, equality with the "
+                     "first call of the process)")
     ctx.notes.append(f"searcher: {n} random 3-D grid pairs (half of them same-region), linear/log alternating: "
                      "range, conservation, identity, nearest fill, adjoint pairing, rho/sigma symmetry on the "
                      "implementation")
@@ -901,6 +1418,8 @@ def replay(ctx, payload):
     fi = payload.get('failing_input') or {}
     if 'seed' not in fi:
         return False
+    if fi.get('kind') == 'opts':
+        return search_opts_history_case(int(fi['seed'])) is None
     if fi.get('kind') == 'history':
         return search_history_case(int(fi['seed'])) is None
     if fi.get('kind') == 'i2g':
